@@ -40,7 +40,9 @@ EXTENDS Integers, Sequences, FiniteSets, TLC
 
 CONSTANTS Writers, Subs, Ids, MaxV,
           Programs,            \* set of call records a writer may be given
-          SubKinds,            \* set of [uo, lossy, masked, inc : BOOLEAN] records (inc: the subscription carries the include
+          SubKinds,            \* set of [uo, lossy, masked, inc, pid : BOOLEAN] records (pid: opened with PullID on the
+                               \* only id of a collection whose item is never removed -- the model's plain subscription).
+                               \* set of [uo, lossy, masked, inc : BOOLEAN] records (inc: the subscription carries the include
                                \* predicate "the value is odd": its stream is that of the filtered collection -- a change
                                \* that makes the item start / stop matching is handed over as an add / a removal, one
                                \* between two non-matching versions not at all; only with backpressure here, C08 has the
@@ -61,6 +63,9 @@ CONSTANTS Writers, Subs, Ids, MaxV,
                                \* sends to are the ones registered at the removal); FALSE: it unlocks first and copies the
                                \* listeners when the send begins (DSnap) -- a subscription opened in between has a seed
                                \* without the item and is still sent its REMOVE
+          SnapHoldsLock,       \* TRUE = the code: a subscription keeps the read lock from its snapshot until it is
+                               \* registered on the bus; FALSE: it lets go of the lock in between (a write committed in
+                               \* that gap is neither in its seed nor sent to it)
           DeleteRechecks,      \* TRUE = the code: under the write lock Delete always compares the item's identity with
                                \* the one it read and goes round again if it changed; FALSE: only when the call carries a
                                \* precondition -- an unconditional Delete then removes whatever is there and announces
@@ -333,7 +338,8 @@ SubSnap(s) ==
   /\ Step("SubSnap", s)
   /\ spc' = [spc EXCEPT ![s] = "snapped"]
   /\ IF kind[s].uo THEN UNCHANGED <<mu, snap>>
-     ELSE /\ mu' = [mu EXCEPT !.r = mu.r \cup {s}, !.ser = IF SubSer /\ ~PublishAfterUnlock THEN 0 - s ELSE mu.ser]
+     ELSE /\ mu' = [mu EXCEPT !.r = IF SnapHoldsLock THEN mu.r \cup {s} ELSE mu.r,
+                                !.ser = IF SubSer /\ ~PublishAfterUnlock THEN 0 - s ELSE mu.ser]
           /\ snap' = [snap EXCEPT ![s] = Contents]
   /\ UNCHANGED <<store, nextVer, prog, pc, loc, pub, lsn, kind, fwd, view, seen, commitLog>>
 
